@@ -15,7 +15,7 @@
 EXTENDS TextGen, Json, IOUtils
 Params == JsonDeserialize(IOEnv.PARAMS)
 Seed == Params.seed
-Nasty == <<"", " ", "\t", "\n", "-", "--", "'", "-'", ".", ". ", ",", "…", "é", "٣", "日本", "😀", "ß", "İ", "0", "12", "1st", " ", "　", "a", "x-", "-x", "''", "½", "(", "́">>
+Nasty == <<"", " ", "\t", "\n", "-", "--", "'", "-'", ".", ". ", ",", "…", "é", "٣", "日本", "😀", "ß", "İ", "0", "12", "1st", " ", "　", "a", "x-", "-x", "''", "½", "(", "́", "’", "l’un", "«", "”">>
 Req(L, n, text, pure) == [i |-> n, lang |-> L, texts |-> <<text>>, thrs |-> Params.thrs, want |-> Params.want, pure |-> pure, via |-> Params.vias[(n % Len(Params.vias)) + 1]]
 
 ExTextN(j, n) == Concat([d \in 1..n |-> Nasty[((j \div Pow(Len(Nasty), n - d)) % Len(Nasty)) + 1]])
